@@ -5,7 +5,7 @@ CONFIG = {
         "name": "schema.reflect", "harness": "schemah", "driver": "drv_schema",
         "env": {"SCHEMAH_STREAM": "reflect"},
         "flush": True,
-        "n": {"quick": 4000, "thorough": 60000, "search": 6000},
+        "n": {"quick": 12000, "thorough": 120000, "search": 12000},
         "shards": {"quick": 8, "thorough": 16, "search": 8},
         "timeout_s": 1500,
         "rule": "descriptor generator (not the j5s compiler): 1-3 linked proto3 files built as FileDescriptorProtos and passed "
